@@ -27,8 +27,8 @@ M = [
   "        self.to_wake.push(cur.clone());\n\n        // unlock the mutex to let other continue\n        mutex::unlock_mutex(lock);",
   "        // unlock the mutex to let other continue\n        mutex::unlock_mutex(lock);\n        self.to_wake.push(cur.clone());", "C11", 40000),
  ("M09 join: wait without the re-check after registering", "src/join.rs",
-  "        self.to_wake.store(cur.clone());\n        // re-check the state\n        if self.state.load(Ordering::Acquire) {",
-  "        self.to_wake.store(cur.clone());\n        // re-check the state\n        if true {", "C01", 20000),
+  "            // re-check the state\n            if self.state.load(Ordering::Acquire) {",
+  "            // re-check the state\n            if true {", "C01", 20000),
  ("M10 join: trigger takes the waiter before clearing state", "src/join.rs",
   "        self.state.store(false, Ordering::Release);\n        if let Some(w) = self.to_wake.take() {\n            w.unpark();\n        }",
   "        let w = self.to_wake.take();\n        self.state.store(false, Ordering::Release);\n        if let Some(w) = w {\n            w.unpark();\n        }", "C01", 40000),
@@ -94,6 +94,6 @@ def main():
                 print(out[-600:])
         finally:
             open(p, 'w').write(src)
-    run(f"find /verif/replays/found -name '*.json' -delete")
+    pass
 
 main()
